@@ -141,9 +141,10 @@ class TypeEval:
                 for ov in k.overloads.get(name, []):
                     out = out.join(self.from_annotation(ov.module, ov.node.returns, ov, k))
             if not seen:
-                ann = self.prog.class_annotation(c, name)
-                if ann is not None:
-                    out = out.join(self.from_annotation(c.module, ann))
+                for k in [c] + self.prog.subclasses(c, strict=True):
+                    ann = self.prog.class_annotation(k, name)
+                    if ann is not None:
+                        out = out.join(self.from_annotation(k.module, ann))
         return out
 
     def eval(self, fn: FunctionInfo, e: ast.AST, env: dict[str, TypeVal]) -> TypeVal:
@@ -206,7 +207,7 @@ class TypeEval:
         if isinstance(e, ast.Subscript):
             recv = self.eval(fn, e.value, env)
             if recv.elem is not None and not recv.classes:
-                return recv.elem
+                return recv if isinstance(e.slice, ast.Slice) else recv.elem
             if recv.classes:
                 return TypeVal(recv.classes).join(self.iter_elem(recv))
             return EMPTY
